@@ -55,12 +55,22 @@ type State struct {
 	held       map[string]string         // lock state: path -> "R"/"W" terms are static strings here
 	exprAlias  map[types.Object]ast.Expr // unrolled range variable -> element expression
 	pendingKey string                    // JSON: the literal key whose value is written next
+	regions    map[string]region         // ownership: location -> region
+	released   map[string]bool           // regions returned to a pool or handed to another goroutine
 }
 
 func (s *State) clone() *State {
 	n := &State{pendingKey: s.pendingKey, guard: s.guard, vars: make(map[types.Object]Term, len(s.vars)), alias: make(map[types.Object]ast.Expr, len(s.alias)), ghost: make(map[string]Term, len(s.ghost)), dead: s.dead, held: map[string]string{}, exprAlias: map[types.Object]ast.Expr{}}
 	for k, v := range s.exprAlias {
 		n.exprAlias[k] = v
+	}
+	n.regions = map[string]region{}
+	for k, v := range s.regions {
+		n.regions[k] = v
+	}
+	n.released = map[string]bool{}
+	for k, v := range s.released {
+		n.released[k] = v
 	}
 	for k, v := range s.vars {
 		n.vars[k] = v
@@ -112,6 +122,8 @@ type FuncCtx struct {
 	usedContracts map[string]bool
 	byteSlices    []byteLeaf
 	groundTest    string
+	goMode        bool
+	nregion       int
 	havocSources  []Term
 	concats       [][3]string // string concatenations (result, left, right) for the JSON-safety facts
 }
@@ -307,7 +319,7 @@ func (w *World) strPrelude() string {
 func (fc *FuncCtx) merge(states []*State) *State {
 	var live []*State
 	for _, s := range states {
-		if s != nil && !s.dead {
+		if s != nil && !s.dead && s.guard != "false" {
 			live = append(live, s)
 		}
 	}
@@ -323,6 +335,32 @@ func (fc *FuncCtx) merge(states []*State) *State {
 		n.guard = fc.compactBool(or(res.guard, s.guard))
 		if res.pendingKey == s.pendingKey {
 			n.pendingKey = s.pendingKey
+		}
+		n.regions = map[string]region{}
+		for k, v := range res.regions {
+			if w, ok := s.regions[k]; ok && w == v {
+				n.regions[k] = v
+			} else if !ok {
+				n.regions[k] = v
+			} else {
+				// different buffers on the two paths: released if either is
+				n.regions[k] = v
+				if s.released[w.base] {
+					n.regions[k] = w
+				}
+			}
+		}
+		for k, v := range s.regions {
+			if _, ok := n.regions[k]; !ok {
+				n.regions[k] = v
+			}
+		}
+		n.released = map[string]bool{}
+		for k := range res.released {
+			n.released[k] = true
+		}
+		for k := range s.released {
+			n.released[k] = true
 		}
 		keys := map[types.Object]bool{}
 		for k := range res.vars {
